@@ -221,12 +221,19 @@ def remove_SplitSliceRead(op, arch):
         # Check if it is possible to put the SplitSliceRead on the tensor consumer(s),
         # or if an avgpool need to be inserted
         # Not possible to do if consumer is a Transpose op since ifm shape has been reshaped and can not be changed
+        # Nor if the consumer sees the tensor in another shape (e.g. FullyConnected flattens its input)
+        def same_shape_in_consumer(consumer):
+            if consumer.ifm == op.ofm:
+                return len(consumer.ifm_shapes) > 0 and consumer.ifm_shapes[0] == op.ofm_shapes[0]
+            return len(consumer.ifm_shapes) > 1 and consumer.ifm_shapes[1] == op.ofm_shapes[0]
+
         if op.ofm_shapes[0] == Shape4D.from_list(op.ofm.shape) and all(
             consumer is not None
             and consumer.run_on_npu
             and consumer.type not in memory_only_ops
             and consumer.type != Op.Mul
             and consumer.original_type != Op.Transpose
+            and same_shape_in_consumer(consumer)
             for consumer in op.ofm.consumer_list
         ):
             # SplitSliceRead can be performed by tensor consumer(s)
